@@ -6,6 +6,7 @@ CONSTANTS
   Types = {"result"}
   OpenKinds = {"plain", "sm", "smr", "resumed"}
   Cids = {"fresh"}
+  Bodies = {"none"}
   Attempts = {"authfail", "bindfail", "userabort", "precut", "abandon"}
   IdRule = "replace"
   MaxHist = 99
